@@ -99,6 +99,19 @@ void harness(void) {
     VF_ASSERT(vf_same(out, janet_wrap_number(pv + 1)), "resuming the wrapper did not continue the inner fiber (its next yield value must come out)");
     VF_ASSERT(janet_fiber_status(y) == JANET_STATUS_PENDING, "inner fiber status");
     (void) s;
+#elif VF_SCEN == 5
+    /* generator protocol through an outer fiber: the consumer's (next g) is interrupted by a signal of the generator that neither
+       accepts; the outer level resumes the consumer, the generator then RETURNS: the consumer must see 'generator finished' (nil),
+       not one more element */
+    JanetFiber *gen = mk(vf_funcs[0], 1, &payload, 0);
+    Janet cargs[1] = { janet_wrap_fiber(gen) };
+    JanetFiber *cons = mk(vf_funcs[4], 1, cargs, 0);
+    JanetSignal s = janet_continue(cons, janet_wrap_nil(), &out);
+    VF_ASSERT((int) s == VF_SIG && cons->child == gen, "the generator's unaccepted signal did not pass through the consumer");
+    s = janet_continue(cons, janet_wrap_nil(), &out);
+    VF_ASSERT(s == JANET_SIGNAL_OK, "consumer did not finish after the generator returned");
+    VF_ASSERT(janet_checktype(out, JANET_NIL), "after the generator RETURNED, next reported another element (the return value is not a yielded value)");
+    VF_ASSERT(janet_fiber_status(gen) == JANET_STATUS_DEAD, "generator status");
 #endif
     VF_WITNESS("fiber scenario end");
 }
@@ -113,7 +126,7 @@ def prepare(tier, vf):
     harnesses, info = [], {"signals": list(range(1, 14))}
     for sig in range(1, 14):
         src = ("[(asm '{:arity 1 :bytecode [(sig 1 0 %d) (ldi 1 77) (ret 1)]})\n (fn [f v] (resume f v))\n (fn [a] (yield a) (yield (+ a 1)) 7)\n"
-               " (fn [f v] (def r (resume f v)) (propagate r f))]\n") % sig
+               " (fn [f v] (def r (resume f v)) (propagate r f))\n (fn [g] (next g nil))]\n") % sig
         gen = os.path.join(gendir, "sig%d.h" % sig)
         vf.fdump(src, gen)
         bit = 1 << sig
@@ -126,6 +139,8 @@ def prepare(tier, vf):
             for pn, mp in masks:
                 cases.append({"name": "three_level_c%s_p%s" % (cn, pn), "D": ["-DVF_SCEN=2", "-DVF_SIG=%d" % sig, "-DVF_MC=%d" % mc, "-DVF_MP=%d" % mp],
                               "tier": "quick" if sig in (1, 3, 9) else "thorough"})
+        # scenario 5 (generator interrupted inside (next g)) is NOT registered: the interruption leaves run_vm through janet_signalv's
+        # longjmp, which the setjmp/longjmp stubs cannot follow (the path ends there): outside the encodable fragment.
         if sig == 3:
             cases += [{"name": "yield_order", "D": ["-DVF_SCEN=3", "-DVF_SIG=3", "-DVF_MC=0", "-DVF_MP=0"]}, {"name": "propagate_forward", "D": ["-DVF_SCEN=4", "-DVF_SIG=3", "-DVF_MC=0", "-DVF_MP=0"]}]
         hdr = {
@@ -143,7 +158,7 @@ def prepare(tier, vf):
                          "F4: propagate of a resumable signal keeps the link so that resuming the wrapper continues the inner fiber"],
             "bounds": ["signals 1..13 (one case each: the number lives in the instruction word), nests of 2 and 3 fibers, mask per level from {none, only bit s, all but s, all} (concrete per case, see E12), payload from the boundary table"],
             "stubs": ["GC allocation = malloc", "janet_panic family = end of path", "_setjmp returns 0"],
-            "outside_claim": ["cleanup macros (defer, edefer, with, try) from boot.janet", "cancel, dynamic bindings / fiber/new flag parsing, generators through next", "event-loop interaction"],
+            "outside_claim": ["signals raised by C helpers inside an opcode (janet_signalv longjmp), e.g. a generator interrupted inside (next g): not followable with setjmp/longjmp stubs", "cleanup macros (defer, edefer, with, try) from boot.janet", "cancel, dynamic bindings / fiber/new flag parsing, generators through next", "event-loop interaction"],
         }
         hp = os.path.join(hdir, "sig_%d.c" % sig)
         open(hp, "w").write(TEMPLATE % {"hdr": json.dumps(hdr, indent=1), "gen": gen})
